@@ -79,7 +79,7 @@ def build(name, variant="asan", thash=None, quiet=False):
     if os.path.exists(exe):
         return exe
     olds = sorted((o for o in glob.glob(os.path.join(BUILD, f"{name}.{variant}.*")) if not o.endswith(".tmp")), key=os.path.getmtime)
-    for old in olds[:-2]:   # keep the two most recent other builds (tree under test / scratch mutants)
+    for old in olds[:-8]:   # keep the most recent other builds (tree under test / parallel scratch mutants)
         try:
             os.remove(old)
         except OSError:
